@@ -125,6 +125,9 @@ def seq_identity(ctx, binp):
     """Seq / ToSeq: identity (no concurrency)"""
     import os, subprocess
     lists = [[]] + [[ctx.rng.randrange(-50, 50) for _ in range(ctx.rng.randrange(0, 12))] for _ in range(200 if ctx.thorough() else 40)]
+    # long sequences (any implementation that stops copying eagerly beyond some length shows here: the harness overwrites
+    # the caller's slice right after Seq returns)
+    lists += [[ctx.rng.randrange(0, 1000) for _ in range(n)] for n in ((100, 1025, 1500, 4097, 9000) if ctx.thorough() else (300, 1500, 5000))]
     fin, fout = os.path.join(ctx.tmp, "seq.in"), os.path.join(ctx.tmp, "seq.out")
     open(fin, "w").write("".join(" ".join(map(str, l)) + "\n" for l in lists))
     p = subprocess.run([binp, "-test.run", "TestSeqToSeq", "-test.count=1"], env=dict(os.environ, SEQ_IN=fin, SEQ_OUT=fout), capture_output=True, text=True)
@@ -138,7 +141,7 @@ def seq_identity(ctx, binp):
         ctx.count("seq " + str(l), nontrivial=len(l) > 0)
         want = "%d %d | %s | true" % (len(l), len(l), " ".join(map(str, l)))
         if i != want:
-            ctx.violations.append(vlib.Violation("impl", "ToSeq(Seq(%s)) is not the identity / channel not closed with capacity len" % l, case="seq " + " ".join(map(str, l)), expected=want, got=i, key={"stage": "Seq"}))
+            ctx.violations.append(vlib.Violation("impl", "ToSeq(Seq(%s)) is not the identity / channel not closed with capacity len" % (l if len(l) <= 12 else "%d elements: %s …" % (len(l), l[:8])), case="seq " + " ".join(map(str, l)), expected=want, got=i, key={"stage": "Seq"}))
         if i == m:
             ctx.cov["traces_validated_against_impl"] += 1
         else:
